@@ -307,11 +307,14 @@ def k_write(sim, sock, data, what='write'):
             sim.ev('write-epipe', t.name, sock.label)
             raise BrokenPipeError(EPIPE, 'Broken pipe')
         if off >= total:
+            sim.sys_return_point(t)
             return total
         free = tx.cap - len(tx.buf) - tx.inflight_bytes
         if free <= 0:
+            # a blocking send / write of one buffer is a single C call: no asynchronous exception is delivered
+            # before it completes (only a kill can cut a message short)
             sim.probe('write-blocked-full')
-            sim.block(t, (tx.wq,), what=f'{what}-full:{sock.label}')
+            sim.block(t, (tx.wq,), what=f'{what}-full:{sock.label}', deliver=False)
             continue
         k = min(free, total - off)
         if seg and k > 1 and sim.frng.random() < seg:
@@ -327,7 +330,7 @@ def k_write(sim, sock, data, what='write'):
         sim.ev('write', t.name, sock.label, k)
         off += k
         if off < total:
-            sim.yield_('write-seg')
+            sim.yield_('write-seg', deliver=False)
 
 
 def k_shutdown(sim, sock, how):
